@@ -330,6 +330,10 @@ class Shelxfile():
                             # if l.startswith('+') and l[:2] != '++':
                             #    self.delete_on_write.update([lnum])
                             self._reslist.insert(reslist_position, l)
+                            # The '+filename' line stays in the file, so the lines it pulls in must not be written
+                            # out again, otherwise they are duplicated with every read/write cycle:
+                            self.delete_on_write = {i + 1 if i >= reslist_position else i for i in self.delete_on_write}
+                            self.delete_on_write.add(reslist_position)
                         continue
                 except IndexError:
                     if self.debug or self.verbose:
